@@ -36,11 +36,15 @@ func RegisterCore(p *Program) {
 		if lo.IsConst() {
 			in.model[t.ID] = lo.Val
 		}
+		delete(in.ts.Ranges, t.ID)
 		c := ts.And(ts.Sle(lo, t), ts.Sle(t, hi))
 		if !in.feasible(c) {
 			panic(pathEnd{"assume", "vpInt empty range"})
 		}
 		in.assume(c)
+		if lo.IsConst() && hi.IsConst() && int64(lo.Val) >= 0 && int64(hi.Val) >= int64(lo.Val) {
+			in.ts.Ranges[t.ID] = [2]uint64{lo.Val, hi.Val}
+		}
 		return t
 	}
 	I["vp:vpStr"] = func(in *Interp, fr *frame, a []Value) Value {
@@ -144,6 +148,16 @@ func RegisterCore(p *Program) {
 		g := in.sched.cur
 		in.sched.yield(g)
 		return nil
+	}
+	I["vp:vpWriteSetBegin"] = func(in *Interp, fr *frame, a []Value) Value {
+		in.writeMark = in.nextObj
+		in.sharedWrites = 0
+		return nil
+	}
+	I["vp:vpWritesOnlyFresh"] = func(in *Interp, fr *frame, a []Value) Value {
+		ok := in.sharedWrites == 0
+		in.writeMark = 0
+		return in.ts.Bool(ok)
 	}
 	I["vp:vpTier"] = func(in *Interp, fr *frame, a []Value) Value { return in.intConst(int64(Tier)) }
 
@@ -491,6 +505,49 @@ func (in *Interp) decimal(t *Term, signed bool) Str {
 		return in.strConst(strconv.FormatUint(t.Val, 10))
 	}
 	v := ts.Resize(t, 64, signed)
+	// constant-plus-small-offset values (e.g. the clock): the high digits are concrete and only
+	// the low k digits are symbolic
+	if cpart, rest, hiR, ok := in.splitConstOffset(v); ok {
+		k := 1
+		p10 := uint64(10)
+		for p10 <= hiR {
+			k++
+			p10 *= 10
+		}
+		if k <= 9 && cpart%p10 == 0 && cpart >= p10 {
+			high := strconv.FormatUint(cpart/p10, 10)
+			w := 4*k + 4
+			low := ts.Extract(rest, w-1, 0)
+			ds := make([]*Term, k)
+			acc := ts.Const(w, 0)
+			var cs []*Term
+			hint := ""
+			if in.compsValid(rest) {
+				hint = fmt.Sprintf("%0*d", k, in.evalT(rest))
+				if len(hint) != k {
+					hint = ""
+				}
+			}
+			for i := 0; i < k; i++ {
+				d := in.fresh("dig", BV(8))
+				delete(in.ts.Ranges, d.ID) // constraints below must not be folded away by an earlier path's range fact
+				if hint != "" {
+					in.model[d.ID] = uint64(hint[i])
+				}
+				ds[i] = d
+				cs = append(cs, ts.Ule(in.byteConst('0'), d), ts.Ule(d, in.byteConst('9')))
+				acc = ts.Add(ts.Mul(acc, ts.Const(w, 10)), ts.Zext(ts.Sub(d, in.byteConst('0')), w))
+			}
+			cs = append(cs, ts.Eq(acc, low))
+			in.assume(ts.And(cs...))
+			for _, d := range ds {
+				in.ts.Ranges[d.ID] = [2]uint64{'0', '9'} // now implied by the path condition
+			}
+			all := append(append([]*Term(nil), in.strConst(high).B...), ds...)
+			in.decProv[provKey(all)] = v
+			return Str{all}
+		}
+	}
 	if signed {
 		if in.Branch(ts.Slt(v, ts.Const(64, 0))) {
 			panic(engineErr("decimal rendering of negative symbolic integer"))
@@ -530,7 +587,7 @@ func (in *Interp) decimal(t *Term, signed bool) Str {
 	}
 	for i := 0; i < nd; i++ {
 		d := in.fresh("dig", BV(8))
-		in.ts.Ranges[d.ID] = [2]uint64{'0', '9'}
+		delete(in.ts.Ranges, d.ID)
 		if hint != "" {
 			in.model[d.ID] = uint64(hint[i])
 		}
@@ -543,8 +600,47 @@ func (in *Interp) decimal(t *Term, signed bool) Str {
 	}
 	cs = append(cs, ts.Eq(ts.Zext(acc, 64), v))
 	in.assume(ts.And(cs...))
+	for _, d := range ds {
+		in.ts.Ranges[d.ID] = [2]uint64{'0', '9'}
+	}
 	in.decProv[provKey(ds)] = v
 	return Str{ds}
+}
+
+// splitConstOffset writes v as cpart + rest with rest in [0,hiR] by interval reasoning over
+// additions of constants and range-annotated variables.
+func (in *Interp) splitConstOffset(v *Term) (cpart uint64, rest *Term, hiR uint64, ok bool) {
+	ts := in.ts
+	var terms []*Term
+	var walk func(t *Term) bool
+	walk = func(t *Term) bool {
+		switch {
+		case t.IsConst():
+			cpart += t.Val
+			return true
+		case t.Op == OpBvAdd:
+			return walk(t.Args[0]) && walk(t.Args[1])
+		}
+		x := t
+		for x.Op == OpZext {
+			x = x.Args[0]
+		}
+		r, has := ts.Ranges[x.ID]
+		if !has || x.Op != OpVar {
+			return false
+		}
+		hiR += r[1]
+		terms = append(terms, t)
+		return true
+	}
+	if v.Sort.W != 64 || v.IsConst() || !walk(v) || len(terms) == 0 || hiR > 100000000 {
+		return 0, nil, 0, false
+	}
+	rest = terms[0]
+	for _, t := range terms[1:] {
+		rest = ts.Add(rest, t)
+	}
+	return cpart, rest, hiR, true
 }
 
 func provKey(b []*Term) string {
